@@ -38,7 +38,8 @@ def run(check, mirror, tier):
     crate = MirCrate(mirror, ["model-evaluator", "feel"], overflow_checks=True, enum_crates=("common", "feel", "model"))
     U = fv.Universe(mirror)
     NUM = U.idx("Number")
-    check.bounds += ["one decision with 0..2 required decisions, 0..2 required input data, 0..1 required knowledge models; supplied context = entries for the "
+    ND = 2 if tier == "quick" else 3
+    check.bounds += ["one decision with 0..%d required decisions, 0..%d required input data, 0..1 required knowledge models;" % (ND, ND) + " supplied context = entries for the "
                      "required inputs (present or not) + one unrelated entry; all values arbitrary"]
     check.assumptions += ["registries behind RwLocks replaced by oracles (see the module docstring); the decision logic is an oracle that records its scope",
                           "no supplied entry carries the name of a required decision or knowledge model (the implementation lets such an entry override it)"]
@@ -50,16 +51,16 @@ def run(check, mirror, tier):
         nd = ex.fresh_int(st, "usize", "n_required_decisions", constrain=False)
         ni = ex.fresh_int(st, "usize", "n_required_inputs", constrain=False)
         nk = ex.fresh_int(st, "usize", "n_required_knowledge", constrain=False)
-        ex.assume(st, z3.And(nd.e >= 0, nd.e <= 2, ni.e >= 0, ni.e <= 2, nk.e >= 0, nk.e <= 1))
+        ex.assume(st, z3.And(nd.e >= 0, nd.e <= ND, ni.e >= 0, ni.e <= ND, nk.e >= 0, nk.e <= 1))
         sid = lambda base, k: StrV(None, id=z3.IntVal(base + k))
-        dec_ids = [sid(100, k) for k in range(2)]
-        inp_ids = [sid(200, k) for k in range(2)]
+        dec_ids = [sid(100, k) for k in range(ND)]
+        inp_ids = [sid(200, k) for k in range(ND)]
         kn_ids = [sid(300, 0)]
         # names: required decisions 10, 11; required inputs 20, 21; knowledge 30; unrelated supplied entry 40; output variable 900
         logic_result = U.fresh(ex, st, 0, "logic", kinds=["Number", "Null", "Boolean"])
-        supplied_present = [z3.Bool(ex.fresh_name("input%d_supplied" % k)) for k in range(2)]
+        supplied_present = [z3.Bool(ex.fresh_name("input%d_supplied" % k)) for k in range(ND)]
         inputs = dict(n_required_decisions=nd.e, n_required_inputs=ni.e, n_required_knowledge=nk.e, _logic=logic_result)
-        for k in range(2):
+        for k in range(ND):
             inputs["input%d_supplied" % k] = supplied_present[k]
 
         def logic(ex, st, argv):
@@ -136,7 +137,7 @@ def run(check, mirror, tier):
                 ex.models.insert(0, m_)
             # the supplied context: entries 20 / 21 (each present or not) and the unrelated entry 40, in key order
             def rec(st, k, ents):
-                if k == 2:
+                if k == ND:
                     ents = ents + [Adt("tuple", None, (Opaque("Name", z3.IntVal(40)), num(4000)))]
                     supplied = Ref(ex.new_cell(st, Adt("struct", "FeelContext", (fv.MapV(z3.IntVal(len(ents)), ents, "kv"),)), "supplied"))
                     body = ex.bodies.get("build_decision_evaluator::{closure#0}")
@@ -180,7 +181,7 @@ def run(check, mirror, tier):
                           z3.BoolVal(out.items[0].fields[1] is res and arg is v["_logic"] and isinstance(ty, Opaque) and ty.e == "declared")))
         else:
             props.append(("the stored result is the logic's value coerced to the declared output type", z3.BoolVal(False)))
-        props.append(("reach:full", z3.BoolVal(len(rd) == 2 and len(ri) == 2 and len(rk) == 1)))
+        props.append(("reach:full", z3.BoolVal(len(rd) == ND and len(ri) == ND and len(rk) == 1)))
         props.append(("reach:leaf", z3.BoolVal(len(rd) == 0 and len(ri) == 0 and len(rk) == 0)))
         return props
 
@@ -204,7 +205,7 @@ def run(check, mirror, tier):
             reqs.append('<knowledgeRequirement><requiredKnowledge href="#_k0"/></knowledgeRequirement>')
         names = ["d%d" % k for k in range(nd)] + ["in%d" % k for k in range(ni)]
         logic = "[" + ", ".join(names + (["k0()"] if nk else []) + ["unrelated"]) + "]"
-        ctx = "{" + ", ".join(["in%d: %d" % (k, 5000 + k) for k in range(2) if i.get("input%d_supplied" % k) and k < ni] + ["unrelated: 4000"]) + "}"
+        ctx = "{" + ", ".join(["in%d: %d" % (k, 5000 + k) for k in range(ND) if i.get("input%d_supplied" % k) and k < ni] + ["unrelated: 4000"]) + "}"
         want = [str(1000 + k) for k in range(nd)] + [(str(5000 + k) if i.get("input%d_supplied" % k) else "null") for k in range(ni)] + (["3000"] if nk else []) + ["null"]
         notes, bad = [], False
         # variant A: untyped decision, the list of what the logic sees; variant B: the same decision typed `string`: a list does not conform -> null
